@@ -14,7 +14,7 @@ RULE = ('rounds of m suppliers x n consumers (1-4 each, threads) over one Iterab
         'one designated consumer behind a barrier, unique items (round, supplier, i), under line-level delay injection in __next__/put_end/renew with a '
         'targeted site between `_used_lids.put` and the `full()` test; process variant (suppliers and consumers in spawned processes) sampled; stop '
         'requests at three moments (before the blocking call, while blocked in get, while blocked in put). non-trivial = >=2 consumers and >=2 rounds; '
-        'distinct = distinct (m, n, bound, rounds, interleaving signature)')
+        'distinct = distinct (m, n, bound, rounds, interleaving signature); queues with a stop event attached (polling every second) and suppliers stalling for about that interval; race rounds: n consumers, fewer items, then the stop request')
 ASSUMPTIONS = ['a consumer "finishes" if its iteration ends within 20 s of the last put_end (typical: ms) or else all stacks are sampled for stability (hang)',
                'a blocked get/put must raise StopRequested within 10 s of the stop event (wait interval is 1 s); the measured latency is evidence']
 CASE_TIMEOUT = 150
